@@ -421,3 +421,56 @@ func ConfigFootprints(repo string) (map[string][]CfgFp, error) {
 	}
 	return out, nil
 }
+
+// DynShared: the outermost paths at which two evaluations of newConfig() hold
+// the same pointer / slice / map (pa, pb: path -> address).
+func DynShared(pa, pb map[string]uintptr) []string {
+	var dyn []string
+	for p, x := range pa {
+		if y, ok := pb[p]; ok && x == y {
+			dyn = append(dyn, p)
+		}
+	}
+	sort.Strings(dyn)
+	var top []string
+	for _, p := range dyn {
+		inner := false
+		for _, q := range top {
+			if strings.HasPrefix(p, q+".") {
+				inner = true
+			}
+		}
+		if !inner {
+			top = append(top, p)
+		}
+	}
+	return top
+}
+
+// MergeAliasFacts: the shared objects are those the evaluation exhibits; the
+// source analysis supplies the name of the package-level variable where it can
+// read the constructor (a constructor written in another shape keeps the fact
+// and loses only the name). A source fact the evaluation does not confirm is an
+// error.
+func MergeAliasFacts(ast []CfgShared, dyn []string) ([]CfgShared, error) {
+	names := map[string]string{}
+	for _, a := range ast {
+		names[a.Path] = a.Global
+	}
+	var out []CfgShared
+	seen := map[string]bool{}
+	for _, p := range dyn {
+		g := names[p]
+		if g == "" {
+			g = "pkgvar@" + p
+		}
+		out = append(out, CfgShared{p, g})
+		seen[p] = true
+	}
+	for _, a := range ast {
+		if !seen[a.Path] {
+			return nil, fmt.Errorf("config.go initialises %s with the package-level %s, but two evaluations of newConfig() do not share it", a.Path, a.Global)
+		}
+	}
+	return out, nil
+}
